@@ -299,6 +299,27 @@ var subC14File = &fw.Sub{Name: "c14.corpus", New: func() fw.Case { return &c14Fi
 			if g := got.Summary(); g != e.Expect {
 				return fw.Failf("recorded: "+fw.Trunc(e.Expect, 400), "now: %s", fw.Trunc(g, 400))
 			}
+			// the same file loaded with the exported Load method into a Prog that held another program before
+			var out, log bytes.Buffer
+			q, perr := bcl.Parse([]byte("\n\n# previous\n\nprint \"previous\" + 1.5\ndef p \"q\" { f = 2 }\n"), "previous", bcl.OptOutput(&out), bcl.OptLogger(&log))
+			if perr != nil {
+				return fw.Failf("helper program parses", "%v", perr)
+			}
+			if lerr := q.Load(bytes.NewReader(raw)); lerr != nil {
+				return fw.Failf("recorded file loads into a used Prog", "%v", lerr)
+			}
+			bl, bi, xerr := bcl.Execute(q)
+			if g := (impl.Ran{Blocks: bl, Binding: bi, Err: xerr, Out: out.String(), Log: log.String()}).Summary(); g != e.Expect {
+				return fw.Failf("loaded into a Prog that held another program before, recorded: "+fw.Trunc(e.Expect, 400), "now: %s", fw.Trunc(g, 400))
+			}
+			var d2 bytes.Buffer
+			if derr := q.Dump(&d2); derr == nil {
+				dp1, e1 := bc.Decode(raw)
+				dp2, e2 := bc.Decode(d2.Bytes())
+				if e1 == nil && e2 == nil && (fmt.Sprint(dp1.Lfs) != fmt.Sprint(dp2.Lfs) || fmt.Sprint(dp1.Positions) != fmt.Sprint(dp2.Positions) || !bytes.Equal(dp1.Code, dp2.Code)) {
+					return fw.Failf("re-dump of the re-used Prog has the file's code, positions and line table", "line table %v vs %v", trimInts(dp1.Lfs), trimInts(dp2.Lfs))
+				}
+			}
 			fw.TallyOutcome("corpus-file-ok")
 			fw.TallyNontrivial()
 			return nil
@@ -333,6 +354,14 @@ func handAssembled() map[string]*bc.Prog {
 	code = bc.PutUvarint(code, 2288)
 	code = append(code, bc.PRINT, bc.RET)
 	mk("wide-operands", big, code...)
+	// jump operands with the top bit set (0x8001 forward over NOPs) and the maximum 0xFFFF
+	for _, dist := range []int{0x8001, 0xFFFF} {
+		// FALSE; JFALSE dist; NOP x dist; PRINT; RET  — the jump lands exactly on PRINT (prints "false")
+		code := []byte{bc.FALSE, bc.JFALSE, byte(dist >> 8), byte(dist)}
+		code = append(code, bytes.Repeat([]byte{bc.NOP}, dist)...)
+		code = append(code, bc.PRINT, bc.RET)
+		mk(fmt.Sprintf("wide-jump-%x", dist), nil, code...)
+	}
 	// every opcode in one program
 	mk("all-opcodes", []any{"blk", "nm", "f", int64(7)},
 		bc.NOP, bc.DEFBLOCK, 0, 1, bc.CONST, 3, bc.SETFIELD, 2, bc.POP, bc.GETFIELD, 2, bc.ONE, bc.ADD, bc.ZERO, bc.SUB, bc.ONE, bc.MUL, bc.ONE, bc.DIV,
@@ -344,12 +373,23 @@ func handAssembled() map[string]*bc.Prog {
 
 func recordCorpus(args []string) int {
 	force := len(args) > 0 && args[0] == "--force"
-	if _, err := os.Stat(corpusPath()); err == nil && !force {
-		fmt.Println("corpus exists; use --force to overwrite")
+	appendOnly := len(args) > 0 && args[0] == "--append"
+	if _, err := os.Stat(corpusPath()); err == nil && !force && !appendOnly {
+		fmt.Println("corpus exists; use --append to add missing scaled/hand-assembled files, --force to overwrite")
 		return 1
 	}
 	var entries []corpusEntry
+	have := map[string]bool{}
+	if appendOnly {
+		entries = append(entries, loadCorpus()...)
+		for _, e := range entries {
+			have[e.Name] = true
+		}
+	}
 	add := func(name, src string, raw []byte) {
+		if have[name] || (appendOnly && strings.HasPrefix(name, "K")) {
+			return // recorded files are never rewritten
+		}
 		got, err := impl.LoadExec(raw)
 		if err != nil {
 			fmt.Println("skip", name, err)
